@@ -10,14 +10,17 @@ extern "C" int __sanitizer_install_malloc_and_free_hooks(void (*malloc_hook)(con
 namespace vk {
 struct AllocMeter {
   static thread_local bool armed;
+  static thread_local int paused;   // > 0 while the harness itself allocates (call logs of the instrumented readers / writers)
+  struct Pause { Pause() { paused++; } ~Pause() { paused--; } };
   static thread_local uint64_t total, peak_single, count;
-  static void on_malloc(const volatile void*, size_t n) { if (armed) { total += n; count++; if (n > peak_single) peak_single = n; } }
+  static void on_malloc(const volatile void*, size_t n) { if (armed && !paused) { total += n; count++; if (n > peak_single) peak_single = n; } }
   static void on_free(const volatile void*) {}
   static void install() { static bool done = false; if (!done) { done = true; __sanitizer_install_malloc_and_free_hooks(on_malloc, on_free); } }
   static void arm() { install(); total = 0; peak_single = 0; count = 0; armed = true; }
   static uint64_t disarm() { armed = false; return total; }
 };
 inline thread_local bool AllocMeter::armed = false;
+inline thread_local int AllocMeter::paused = 0;
 inline thread_local uint64_t AllocMeter::total = 0;
 inline thread_local uint64_t AllocMeter::peak_single = 0;
 inline thread_local uint64_t AllocMeter::count = 0;
